@@ -240,6 +240,14 @@ func selfCheck(k *Conc, c *ACase, lines []string) error {
 			}
 		}
 	}
+	// the extension atoms are distinct from every other value of the case
+	all := map[string]string{}
+	for _, a := range []string{"v1", "v2", "w", "n0", "n1", "n2", "n3", "v1s", "pv2", "pv1s"} {
+		if b, dup := all[k.Val[a]]; dup {
+			return fmt.Errorf("value atoms %s and %s have the same string %q", a, b, k.Val[a])
+		}
+		all[k.Val[a]] = a
+	}
 	vs := []string{k.Val["v1"], k.Val["v2"], k.Val["w"]}
 	for i := range vs {
 		for j := range vs {
@@ -305,8 +313,13 @@ func prepareLogCase(c *ACase, seed int64) *prepared {
 	}
 	p.k, p.lines, p.entries = k, lines, entries
 	p.req = CRequest{Query: k.logSelectorAndPipe(&c.Q), StartNs: k.FromNs, EndNs: k.ToNs, Limit: c.Q.Lim, Forward: c.Q.Fwd}
+	if err := k.checkValueRegexes(); err != nil {
+		out.infra = "concretiser self-check: " + err.Error()
+	}
 	return p
 }
+
+var extAtoms = map[string]bool{"v1s": true, "pv2": true, "pv1s": true}
 
 func runLogCase(w *World, p *prepared) *caseOutcome {
 	out, c, k, lines, entries := p.out, p.c, p.k, p.lines, p.entries
@@ -554,6 +567,16 @@ func tagsOf(k *Conc, c *ACase) []string {
 		if m.Val == "v1" || m.Val == "v2" {
 			t = append(t, "value:"+k.ValTag[m.Val])
 		}
+		if fl := k.regexFl["val:"+m.Val]; fl != "" && (m.Op == "=~" || m.Op == "!~") {
+			t = append(t, "valueregex:"+fl)
+			seen := map[string]bool{}
+			for _, e := range c.DB {
+				if v := e.S[m.Name]; extAtoms[v] && !seen[v] {
+					seen[v] = true
+					t = append(t, "extvalue:"+v+":"+m.Op)
+				}
+			}
+		}
 	}
 	return t
 }
@@ -600,6 +623,16 @@ func logFixedWhy(k *Conc, c *ACase) string {
 	q := &c.Q
 	if len(q.M) >= 9 {
 		return "selector:9+matchers"
+	}
+	// a regex matcher and a stored value that merely starts with / ends with / contains a value it matches
+	for _, m := range q.M {
+		if (m.Op == "=~" || m.Op == "!~") && (m.Val == "R_v1" || m.Val == "R_v2" || m.Val == "R_v1v2") {
+			for _, e := range c.DB {
+				if extAtoms[e.S[m.Name]] {
+					return "selector:regex-whole-value|" + m.Op
+				}
+			}
+		}
 	}
 	firstParser, firstDrop := -1, -1
 	for i, st := range q.P {
